@@ -29,23 +29,24 @@ TSNEAR == U32CAP - 1000
 MkHop(k, e) == [id |-> k, exp |-> e, in |-> 100 + k, eg |-> 200 + k, mac |-> k, ai |-> FALSE, ae |-> FALSE]
 MkInf(j, cd, ts) == [id |-> j, cd |-> cd, ts |-> ts, sid |-> {}]
 
-PtrCellsOf(sl) ==
-  {[sl |-> sl, ci |-> ci, ch |-> ch,
-    inf |-> [j \in 1..NInf(sl) |-> MkInf(j, cdv[j], 1000 * j)],
-    hop |-> [k \in 1..Total(sl) |-> MkHop(k, 10 + k)]] :
-     ci \in 0..3, ch \in ChOf(sl), cdv \in [1..NInf(sl) -> BOOLEAN]}
+MkPtr(sl, ci, ch, cdv) ==
+  [sl |-> sl, ci |-> ci, ch |-> ch,
+   inf |-> [j \in 1..NInf(sl) |-> MkInf(j, cdv[j], 1000 * j)],
+   hop |-> [k \in 1..Total(sl) |-> MkHop(k, 10 + k)]]
 
 \* expiry family: one designated hop (0 = none) carries the small exp value, every timestamp
 \* is either far from or near the saturation bound
-ExpCellsOf(sl) ==
-  {[sl |-> sl, ci |-> 0, ch |-> 0,
-    inf |-> [j \in 1..NInf(sl) |-> MkInf(j, TRUE, IF tsv[j] THEN TSNEAR ELSE 1000 * j)],
-    hop |-> [k \in 1..Total(sl) |-> MkHop(k, IF k = low THEN 0 ELSE IF k = low + 1 THEN 5 ELSE 255)]] :
-     low \in 0..Total(sl), tsv \in [1..NInf(sl) -> BOOLEAN]}
+MkExp(sl, low, tsv) ==
+  [sl |-> sl, ci |-> 0, ch |-> 0,
+   inf |-> [j \in 1..NInf(sl) |-> MkInf(j, TRUE, IF tsv[j] THEN TSNEAR ELSE 1000 * j)],
+   hop |-> [k \in 1..Total(sl) |-> MkHop(k, IF k = low THEN 0 ELSE IF k = low + 1 THEN 5 ELSE 255)]]
 
-Cells == UNION {IF FAMILY = "ptr" THEN PtrCellsOf(sl) ELSE ExpCellsOf(sl) : sl \in Shapes}
+CellsOf(sl) == IF FAMILY = "ptr"
+               THEN {MkPtr(sl, ci, ch, cdv) : ci \in 0..3, ch \in ChOf(sl), cdv \in [1..NInf(sl) -> BOOLEAN]}
+               ELSE {MkExp(sl, low, tsv) : low \in 0..Total(sl), tsv \in [1..NInf(sl) -> BOOLEAN]}
 
-Init == p \in Cells /\ last = [op |-> "init", ok |-> TRUE, b |-> <<>>] /\ n = 0
+Init == /\ \E sl \in Shapes : p \in CellsOf(sl)
+        /\ last = [op |-> "init", ok |-> TRUE, b |-> <<>>] /\ n = 0
 
 Reverse == /\ n < Depth
            /\ LET r == ViewReverse(p) IN
@@ -61,35 +62,37 @@ Spec == Init /\ [][Next]_vars
 \* side holds by construction of ModelReverse and is checked on the real model by replay)
 ErrIsAtomic == (last.op = "rev" /\ ~last.ok) => p = last.b
 
+WFEquiv == WF(p) <=> WFFast(p)
+
 \* C12: on every well-formed header the view and the model agree on reversal ...
 AgreeReverse ==
-  WF(p) => LET v == ViewReverse(p)
+  WFFast(p) => LET v == ViewReverse(p)
                m == ModelReverse(ModelOf(p)) IN
            /\ v.ok = m.ok
            /\ (v.ok => (Encode(m.m) = v.p /\ ModelOf(v.p) = m.m /\ ModelValid(m.m)))
 \* ... reversal is its own inverse ...
 Involution ==
-  WF(p) => LET v == ViewReverse(p)
+  WFFast(p) => LET v == ViewReverse(p)
                m == ModelReverse(ModelOf(p)) IN
            /\ (v.ok => (ViewReverse(v.p).ok /\ ViewReverse(v.p).p = p))
            /\ (m.ok => (ModelReverse(m.m).ok /\ ModelReverse(m.m).m = ModelOf(p)))
 \* ... and keeps the logical position: the same hop field and the same info field are current
 Position ==
-  WF(p) => LET v == ViewReverse(p) IN
+  WFFast(p) => LET v == ViewReverse(p) IN
            v.ok => /\ v.p.ch < Len(v.p.hop) /\ v.p.hop[v.p.ch + 1].id = p.hop[p.ch + 1].id
                    /\ v.p.ci < Len(v.p.inf) /\ v.p.inf[v.p.ci + 1].id = p.inf[p.ci + 1].id
                    /\ v.p.inf[v.p.ci + 1].cd = ~p.inf[p.ci + 1].cd
 \* ... on a well-formed header reversal succeeds (needed for non-vacuity of the above)
-WFReverses == WF(p) => ViewReverse(p).ok
+WFReverses == WFFast(p) => ViewReverse(p).ok
 \* ... they agree on expiry, also after reversal, and on the segment structure
 AgreeExpiry ==
-  WF(p) => /\ ViewExpiry(p) = ModelExpiry(ModelOf(p))
+  WFFast(p) => /\ ViewExpiry(p) = ModelExpiry(ModelOf(p))
            /\ ViewExpiry(ViewReverse(p).p) = ViewExpiry(p)
 AgreeSegments ==
-  WF(p) => ViewSegments(p) = ModelOf(p).segs
+  WFFast(p) => ViewSegments(p) = ModelOf(p).segs
 \* reversal exchanges the end-point interfaces
 EndsSwap ==
-  WF(p) => LET q == ViewReverse(p).p IN FirstEgress(q) = LastIngress(p) /\ LastIngress(q) = FirstEgress(p)
+  WFFast(p) => LET q == ViewReverse(p).p IN FirstEgress(q) = LastIngress(p) /\ LastIngress(q) = FirstEgress(p)
 
 (* ------------------------------ generation --------------------------------- *)
 Ids(s) == [i \in 1..Len(s) |-> s[i].id]
@@ -104,7 +107,7 @@ Cell(q) ==
   [sl |-> q.sl, ci |-> q.ci, ch |-> q.ch, cd |-> Cds(q.inf),
    ts |-> [j \in 1..Len(q.inf) |-> q.inf[j].ts],
    exp |-> [k \in 1..Len(q.hop) |-> q.hop[k].exp],
-   wf |-> WF(q),
+   wf |-> WFFast(q),
    rev |-> [ok |-> v.ok, cls |-> v.cls, after |-> HdrJ(v.p)],
    model |-> MdlJ(m), mvalid |-> ModelValid(m),
    mrev |-> [ok |-> mr.ok, after |-> MdlJ(mr.m)],
